@@ -45,7 +45,7 @@ fn same_entries(a: &SummaryStream, b: &SummaryStream) -> bool {
 }
 
 fn well_formed_stream() -> Vec<u8> {
-    let n = 1 + sym::choose("nentries", 2);
+    let n = 1 + sym::choose("nentries", sym::bound(2, 3));
     let mut st: Vec<u8> = Vec::new();
     let mut i = 0;
     while i < n {
